@@ -25,7 +25,7 @@ RULE = ('prefixes from the name generator; forwarder replies {200 with/without b
 C = lambda s: rc.comp(8, s)   # noqa
 REPLIES = ['200', '200-nobody', '400', '403-nobody', '404', '500-nobody', 'random-code', 'nack', 'silence', 'garbage',
            'empty-content', 'no-content', 'wrong-outer', 'bad-signature', '200-extra-fields', '200-unknown-fields-inside', 'empty-signature', 'absent-signature-value',
-           'status-200-in-illegal-width', 'status-200-overrunning']
+           'status-200-in-illegal-width', 'status-200-overrunning', '200-body-names-another-prefix', '200-body-without-name']
 
 
 def control_response(status, text=b'OK', body=None, unknown=None):
@@ -143,6 +143,11 @@ class Forwarder:
             content = control_response(200, b'OK', cp_body(prefix))
         elif kind == '200-nobody':
             content = control_response(200, b'OK')
+        elif kind == '200-body-names-another-prefix':
+            # status 200 is success whatever the echoed parameters say (a forwarder may normalise / shorten the prefix it registered)
+            content = control_response(200, b'OK', cp_body(list(prefix[:-1]) if prefix and self.rng.random() < 0.5 else list(prefix) + [C(b'else')]))
+        elif kind == '200-body-without-name':
+            content = control_response(200, b'OK', rc.enc_tlv(0x69, rc.enc_nni(300)) + rc.enc_tlv(0x6f, b'\x00'))
         elif kind == '200-unknown-fields-inside':
             # fields of a newer forwarder between the known ones, in the response and in its ControlParameters
             U = lambda t: rc.enc_tlv(t, b'new')   # noqa
@@ -195,7 +200,7 @@ class Forwarder:
 def expected_result(fe, kind, strict_app_validator=False):
     if fe == 'v1' and strict_app_validator:
         return False        # the legacy front-end validates command responses with the application's data validator: it refuses
-    if kind in ('200', '200-nobody', '200-extra-fields', '200-unknown-fields-inside'):
+    if kind in ('200', '200-nobody', '200-extra-fields', '200-unknown-fields-inside', '200-body-names-another-prefix', '200-body-without-name'):
         return True
     if kind in ('bad-signature', 'empty-signature', 'absent-signature-value'):
         return fe == 'v2'       # v2 commands use pass_all; the legacy front-end validates the digest signature
